@@ -110,6 +110,11 @@ func wrapAll(children []jx.Obj, cnames []string) (out []jx.Obj, names []string) 
 		add("tuple["+n+"]+ai:true", jx.Obj{"type": "array", "items": jx.Arr{cl()}, "additionalItems": true})
 		add("tuple["+n+"]+ai:false", jx.Obj{"type": "array", "items": jx.Arr{cl()}, "additionalItems": false})
 		add("object{p:"+n+"}+ap:false", jx.Obj{"type": "object", "properties": jx.Obj{"p": cl()}, "additionalProperties": false})
+		// multi-typed ("nullable") twins classify like their single-typed form
+		add("object-nullable{p:"+n+"}", jx.Obj{"type": jx.Arr{"object", "null"}, "properties": jx.Obj{"p": cl()}})
+		add("map-nullable:"+n, jx.Obj{"type": jx.Arr{"null", "object"}, "additionalProperties": cl()})
+		add("array-nullable:"+n, jx.Obj{"type": jx.Arr{"array", "null"}, "items": cl()})
+		add("tuple-nullable["+n+"]", jx.Obj{"type": jx.Arr{"array", "null"}, "items": jx.Arr{cl()}})
 		add("allOf["+n+"]", jx.Obj{"allOf": jx.Arr{cl()}})
 		add("allOf["+n+",obj]+ap", jx.Obj{"allOf": jx.Arr{cl(), jx.Obj{"type": "object", "properties": jx.Obj{"q": jx.Obj{"type": "string"}}}}, "additionalProperties": true})
 	}
